@@ -7,6 +7,7 @@ import (
 	"path/filepath"
 	"runtime/debug"
 	"strings"
+	"syscall"
 
 	"github.com/jsightapi/jsight-schema-core/fs"
 
@@ -199,6 +200,8 @@ type Project struct {
 	Files map[string]string `json:"files"`
 	Root  string            `json:"root"`
 	Dirs  []string          `json:"dirs,omitempty"`
+	// Fifos: named pipes to create (nobody ever writes to them: reading one blocks for ever)
+	Fifos []string `json:"fifos,omitempty"`
 }
 
 func Single(content string) Project {
@@ -216,6 +219,9 @@ func (p Project) Materialise(dir string) string {
 		fp := filepath.Join(dir, n)
 		os.MkdirAll(filepath.Dir(fp), 0o755)
 		os.WriteFile(fp, []byte(c), 0o644)
+	}
+	for _, n := range p.Fifos {
+		syscall.Mkfifo(filepath.Join(dir, n), 0o644)
 	}
 	return filepath.Join(dir, p.Root)
 }
